@@ -217,6 +217,43 @@ func checkCopyMsg(c msgCase) error {
 			return pbt.Errf("writing through a message copy changed the original: %s", diffAt(after, before))
 		}
 	}
+	// CopyTo into a destination that is in use: a scratch message whose sections are (shallow
+	// copies of) those of a third message. The copy must share nothing with the source - and the
+	// third message, which only lent its slices to the scratch value, must not change either.
+	for variant := 0; variant < 2; variant++ {
+		lib, _ = wm.MsgToLib(c.M, true)
+		third, err := wm.MsgToLib(c.M, true)
+		if err != nil {
+			return nil
+		}
+		if variant == 1 {
+			// the third message has its own, different content with roomy slices
+			third.Question = append(make([]dns.Question, 0, 8), dns.Question{Name: "scratch.example.", Qtype: 1, Qclass: 1}, dns.Question{Name: "two.example.", Qtype: 2, Qclass: 1})
+			third.Answer = append(make([]dns.RR, 0, 8), &dns.A{Hdr: dns.RR_Header{Name: "scratch.example.", Rrtype: 1, Class: 1}, A: []byte{192, 0, 2, 9}})
+		}
+		thirdBefore := snap(third)
+		dst := *third // shares every slice with third
+		cp := lib.CopyTo(&dst)
+		if len(lib.Question) > 0 && snap(cp.Question) != snap(lib.Question) {
+			return pbt.Errf("CopyTo into a used message: questions differ from the source: %s", diffAt(snap(cp.Question), snap(lib.Question)))
+		}
+		if after := snap(third); after != thirdBefore {
+			return pbt.Errf("CopyTo into a message that shared its slices with another message changed that other message: %s", diffAt(after, thirdBefore))
+		}
+		if o := aliascheck.Overlap(lib, cp); o != "" {
+			return pbt.Errf("CopyTo into a used message: %s", o)
+		}
+		before := snap(lib)
+		aliascheck.Scribble(cp)
+		if after := snap(lib); after != before {
+			return pbt.Errf("writing through a copy made by CopyTo into a used message changed the source: %s", diffAt(after, before))
+		}
+		if len(lib.Question) > 0 {
+			if after := snap(third); after != thirdBefore {
+				return pbt.Errf("writing through a copy made by CopyTo changed the message the destination had borrowed its slices from: %s", diffAt(after, thirdBefore))
+			}
+		}
+	}
 	return nil
 }
 
@@ -285,6 +322,22 @@ func checkReadOnly(c msgCase) error {
 	}
 	if _, err := wm.Encode(c.M); err != nil {
 		return nil
+	}
+	// Pack may write the extended RCODE bits into the OPT record it finds; it may not put another
+	// record in its place (a caller holding the *OPT must still be holding the message's OPT)
+	if l2, err := wm.MsgToLib(c.M, true); err == nil && l2.IsEdns0() != nil {
+		l2.Rcode = 16 + int(c.M.ID)%4000
+		if c.M.ID%3 == 0 {
+			l2.Rcode = int(c.M.ID) % 16
+			l2.IsEdns0().SetExtendedRcode(0xff0) // stale upper bits from an earlier use
+		}
+		held := append([]dns.RR{}, l2.Extra...)
+		l2.Pack()
+		for i := range held {
+			if i >= len(l2.Extra) || l2.Extra[i] != held[i] {
+				return pbt.Errf("Pack (RCODE %d) replaced additional record %d of its argument by another value instead of updating it in place", l2.Rcode, i)
+			}
+		}
 	}
 	// the documented bookkeeping: Pack stores the extended RCODE bits in the OPT TTL
 	if opt := lib.IsEdns0(); opt != nil {
@@ -368,6 +421,10 @@ func checkReadOnly(c msgCase) error {
 	carve(&lib.Answer)
 	carve(&lib.Ns)
 	carve(&lib.Extra)
+	identity := func() []dns.RR {
+		return append(append(append([]dns.RR{}, lib.Answer...), lib.Ns...), lib.Extra...)
+	}
+	same := identity()
 	before := snap(lib)
 	ops := []struct {
 		name string
@@ -399,6 +456,11 @@ func checkReadOnly(c msgCase) error {
 		op.run()
 		if after := snap(lib); after != before {
 			return pbt.Errf("%s changed its argument: %s", op.name, diffAt(after, before))
+		}
+		for i, rr := range identity() {
+			if i >= len(same) || rr != same[i] {
+				return pbt.Errf("%s replaced a record of its argument by another value (record %d is no longer the one the caller put there; whoever holds the old pointer is cut off)", op.name, i)
+			}
 		}
 		for _, a := range arenas {
 			for _, x := range a {
